@@ -29,7 +29,19 @@ TrPc == /\ HasEvent("Pc") /\ step = "done"
              wrong_value |-> ~E.raised /\ E.special = "" /\ ~REq(E.ret, res),
              outside_unit_interval |-> ~E.raised /\ E.special = "" /\ ~(RLe(<<0, 1>>, E.ret) /\ RLe(E.ret, <<1, 1>>)) ]))
 
-TraceNext == TrSilent \/ TrPc
+\* large samples (thousands of elements): the returned fraction times the number of pairs (N(N-1), or N1*N2) is logged as an
+\* integer and compared with the number of coinciding pairs the machine's CountUnique step yields (no rational arithmetic, which
+\* would overflow TLC's integers at these sizes)
+Coinciding == IF b = <<>> THEN SumPairs({ <<v, counts[1][v] * (counts[1][v] - 1)>> : v \in DOMAIN counts[1] })
+              ELSE SumPairs({ <<v, counts[1][v] * counts[2][v]>> : v \in (DOMAIN counts[1]) \cap (DOMAIN counts[2]) })
+TrPcBig == /\ HasEvent("PcBig") /\ step = "done"
+           /\ UNCHANGED vars
+           /\ Consume(Named([
+                raised |-> E.raised,
+                not_a_whole_number_of_pairs |-> ~E.raised /\ ~E.integral,
+                wrong_value |-> ~E.raised /\ E.integral /\ E.num # Coinciding ]))
+
+TraceNext == TrSilent \/ TrPc \/ TrPcBig
 TraceSpec == TraceInit /\ [][TraceNext]_<<vars, xvars>>
 SessionDone == l > Len(Events)
 EmitVerdict == SessionDone => PrintT(ToJson([sid |-> Sessions[s].sid, n |-> Len(Events), verdict |-> verdict]))
